@@ -155,7 +155,8 @@ fn get_text_edit_range_in_string(
         start_offset += 1;
     }
 
-    if text.ends_with('"') || text.ends_with('\'') {
+    // an unterminated string that is only its opening quote has no closing quote to strip
+    if text.len() >= 2 && (text.ends_with('"') || text.ends_with('\'')) {
         end_offset -= 1;
     }
 
